@@ -4,31 +4,39 @@
 (* generator of real-time scenarios for harness/cmd/x03 `wd`: in WdLive    *)
 (* the services of a reachable node refresh lastRequest every second (what *)
 (* the one-second ping ticker of an idle worker does), the environment     *)
-(* takes the database of a node away and brings it back a bounded number   *)
-(* of times.  A behaviour fixes the schedule of Down/Up events and, by the *)
-(* spec, the instant at which the watchdog terminates the process.         *)
+(* takes the database of the node away and may bring it back (plan, chosen *)
+(* in the initial state).  A behaviour fixes, by the spec, the instant at  *)
+(* which the watchdog terminates the process.                              *)
 (***************************************************************************)
 EXTENDS WriterLifecycle
 
 WdKindsLogs == <<"ts", "spl">>
 WdKindsTs   == <<"ts">>
 
-VARIABLE flips      \* Down/Up events still allowed
-lvars == <<vars, flips>>
+VARIABLE plan       \* [down, up]: the second in which the database of n1 goes away / comes back (0: never)
+lvars == <<vars, plan>>
+
+N == CHOOSE n \in Nodes : TRUE
+DownDue == plan.down > 0 /\ now = plan.down /\ up[N]
+UpDue   == plan.up > 0 /\ now = plan.up /\ ~up[N]
 
 LiveTick ==
-    /\ ~wdExited /\ now < MaxNow
+    /\ ~wdExited /\ now < MaxNow /\ ~DownDue /\ ~UpDue
     /\ (now > 0 /\ now % Period = 0) => wdDone
     /\ now' = now + 1 /\ wdDone' = FALSE
     /\ last' = TLCEval([sv \in Svc |-> IF up[sv[1]] THEN now + 1 ELSE last[sv]])
-    /\ UNCHANGED <<up, wdExited, wdStaleAtExit, wdSkipped, flips>>
-LiveCheck(nd) == WdCheck(nd) /\ UNCHANGED flips
-LiveDown(n) == flips > 0 /\ (now % Period # 0) /\ WdDown(n) /\ flips' = flips - 1
-LiveUp(n)   == flips > 0 /\ (now % Period # 0) /\ WdUp(n) /\ flips' = flips - 1
+    /\ UNCHANGED <<up, wdExited, wdStaleAtExit, wdSkipped, plan>>
+LiveCheck(nd) == WdCheck(nd) /\ UNCHANGED plan
+LiveDown == DownDue /\ WdDown(N) /\ UNCHANGED plan
+LiveUp   == UpDue /\ WdUp(N) /\ UNCHANGED plan
 
-LiveNext == (LiveTick \/ (\E nd \in Nodes : LiveCheck(nd)) \/ (\E n \in Nodes : LiveDown(n) \/ LiveUp(n)))
+LiveNext == (LiveTick \/ (\E nd \in Nodes : LiveCheck(nd)) \/ LiveDown \/ LiveUp)
             /\ UNCHANGED <<svars, wvars, pvars>>
-LiveSpec == Init /\ flips = 2 /\ [][LiveNext]_lvars
+\* events fall between the check instants (never in a second that is a multiple of Period)
+Plans == { p \in [down : 0..12, up : 0..14] :
+             /\ p.down % Period # 0 \/ p.down = 0
+             /\ p.up = 0 \/ (p.down > 0 /\ p.up > p.down /\ p.up % Period # 0) }
+LiveSpec == Init /\ plan \in Plans /\ [][LiveNext]_lvars
 \* the unrestricted watchdog model (any refresh pattern)
-WdOnlySpec == Init /\ flips = 0 /\ [][WdNext /\ UNCHANGED <<svars, wvars, pvars, flips>>]_lvars
+WdOnlySpec == Init /\ plan = [down |-> 0, up |-> 0] /\ [][WdNext /\ UNCHANGED <<svars, wvars, pvars, plan>>]_lvars
 ====
